@@ -8,18 +8,19 @@ package main
 import (
 	"math"
 	"strings"
+	"time"
 
 	"github.com/zclconf/go-cty/cty"
 	"github.com/zclconf/go-cty/cty/function/stdlib"
 )
 
-var c14RefNames = map[string]bool{"split": true, "trimprefix": true, "trimsuffix": true, "trimspace": true, "trim": true}
+var c14RefNames = map[string]bool{"timeadd": true, "split": true, "trimprefix": true, "trimsuffix": true, "trimspace": true, "trim": true}
 
 // nfcOnly keeps the recorded NFC facts and drops every other library column.
 func (o *oracle) nfcOnly() string {
 	var es []string
 	for _, e := range o.entries {
-		if strings.HasPrefix(e, "(nfc ") {
+		if strings.HasPrefix(e, "(nfc ") || strings.HasPrefix(e, "(parseTimestamp ") || strings.HasPrefix(e, "(timeAdd ") {
 			es = append(es, e)
 		}
 	}
@@ -170,6 +171,7 @@ func runC14D14b(ctx *Ctx) {
 			runGlue(ctx, glueCase{name: e.name, goNm: e.goNm, f: f, args: []cty.Value{a, b}, orc: o, want: sv(o.nfc(lib))})
 		}
 	}
+	c14Durations(ctx)
 	// log / pow at the corners of the domain rule
 	corner := []cty.Value{cty.NumberIntVal(0), cty.NumberIntVal(1), cty.NumberIntVal(-1), cty.NumberIntVal(2), cty.NumberIntVal(-2), cty.NumberIntVal(3), cty.NumberIntVal(-3),
 		cty.NumberFloatVal(0.5), cty.NumberFloatVal(-0.5), cty.NumberFloatVal(1.5), cty.NumberFloatVal(-1.5), cty.PositiveInfinity, cty.NegativeInfinity,
@@ -191,5 +193,93 @@ func runC14D14b(ctx *Ctx) {
 				c14DomCase(ctx, e.nm, args, class, fa, fb)
 			}
 		}
+	}
+}
+
+// c14Durations: time.ParseDuration's verdict against the transliteration (op std.strref parsedur), and timeadd
+// through it: the documented grammar, every unit, missing / unknown units, signs, the "0" special case, and the
+// overflow tests around 2^63 ns (without a fraction: the fraction goes through float64 in Go).
+func c14Durations(ctx *Ctx) {
+	r := ctx.R
+	fixed := []string{"", "0", "+0", "-0", "-", "+", "00", "1", "1h", "-1h30m", "+1.5h", ".5s", "1.s", ".s", "-.s", "1x", "1hh", "1h1", "1h.", "1.0.5s", "1e3s", " 1s", "1s ", "1H",
+		"1ns", "1us", "1\u00b5s", "1\u03bcs", "1ms", "1s", "1m", "1h", "1d", "1\u00b5", "\u00b5s",
+		"9223372036854775807ns", "9223372036854775808ns", "-9223372036854775808ns", "-9223372036854775809ns", "9223372036854775809ns", "92233720368547758080ns",
+		"9223372036854775us", "9223372036854776us", "9223372036854ms", "9223372036855ms", "9223372036s", "9223372037s", "153722867m", "153722868m", "2562047h", "2562048h",
+		"2562047h47m16s854ms775us807ns", "2562047h47m16s854ms775us808ns", "-2562047h47m16s854ms775us808ns", "-2562047h47m16s854ms775us809ns",
+		"2562047h2562047h", "9223372036s9223372036s", "0.000000000000000000000000000001h", "1.00000000000000000000000000000000000001s", "0.9223372036854775807999s",
+		"3000000h", "1.5h30.25m", "100000000000000000000h", "0.5ns", "0h0m0s"}
+	digits := func(k int) string {
+		var sb strings.Builder
+		for ; k > 0; k-- {
+			sb.WriteByte(byte('0' + r.Intn(10)))
+		}
+		return sb.String()
+	}
+	units := []string{"ns", "us", "\u00b5s", "\u03bcs", "ms", "s", "m", "h", "h", "s", "", "d", "sec", "S"}
+	gen := func() string {
+		var sb strings.Builder
+		switch r.Intn(6) {
+		case 0:
+			sb.WriteString("-")
+		case 1:
+			sb.WriteString("+")
+		}
+		for k := 1 + r.Intn(3); k > 0; k-- {
+			switch r.Intn(8) {
+			case 0:
+				sb.WriteString(digits(r.Intn(3)) + "." + digits(r.Intn(4)))
+			case 1:
+				sb.WriteString(digits(17 + r.Intn(4)))
+			default:
+				sb.WriteString(digits(1 + r.Intn(4)))
+				if r.Intn(3) == 0 {
+					sb.WriteString("." + digits(1+r.Intn(12)))
+				}
+			}
+			sb.WriteString(units[r.Intn(len(units))])
+		}
+		return sb.String()
+	}
+	n := ctx.N(600, 8000)
+	ts := "2020-01-02T03:04:05Z"
+	for i := 0; i < len(fixed)+n; i++ {
+		var d string
+		if i < len(fixed) {
+			d = fixed[i]
+		} else {
+			d = gen()
+		}
+		d = sv(d).AsString()
+		dv, err := time.ParseDuration(d)
+		verdict := "ok"
+		if err != nil {
+			verdict = "err"
+		}
+		ctx.Add("std.strref", verdict, "parsedur", encStr(d))
+		switch {
+		case err == nil:
+			ctx.Tag("duration:accepted")
+		case strings.Contains(err.Error(), "missing unit"):
+			ctx.Tag("duration:missing-unit")
+		case strings.Contains(err.Error(), "unknown unit"):
+			ctx.Tag("duration:unknown-unit")
+		default:
+			ctx.Tag("duration:invalid-or-overflow")
+		}
+		o := newOracle()
+		t, ok := o.parseTimestamp(ts)
+		if !ok {
+			continue
+		}
+		o.add("parseDuration", []string{d}, encBool(err == nil))
+		c := glueCase{name: "timeadd", goNm: "TimeAdd", f: stdlib.TimeAddFunc, args: []cty.Value{sv(ts), sv(d)}, orc: o}
+		if err != nil {
+			c.wantErr = true
+		} else {
+			lib := t.Add(dv).Format(time.RFC3339)
+			o.add("timeAdd", []string{ts, d}, encStr(lib))
+			c.want = sv(o.nfc(lib))
+		}
+		runGlue(ctx, c)
 	}
 }
